@@ -105,9 +105,23 @@ FINDINGS = [
          cases=[c02_case([("int_lit", "top"), ("float_lit", "top")], "x = 3; x = 2.5 (top level)"),
                 c02_case([("int_expr", "if"), ("float_expr", "loop")], "int in an if-branch, float later in the main loop"),
                 c02_case([("bool_lit", "top"), ("int_expr", "top")], "x = True; x = a + 1")]),
-    dict(id="KF-C02-builtins-typed-int", property="C02", status="open", commit=None,
-         what="abs()/min()/max() results are always typed int: m = max(1, 2.5) stores 2",
+    dict(id="KF-C02-builtins-typed-int", property="C02", status="fixed", commit="59a19a4",
+         what="abs()/min()/max() results were always typed int: m = max(1, 2.5) stored 2",
          cases=[prog("C02", c02.PRO + "\n".join(c02.HELPERS + c02.HEAD) + "\nm = max(1, 2.5)\nmon.write(m)\nq = abs(a - 6.5)\nmon.write(q)\n", [{"passes": 0, "ar": {"A0": [3]}}], "m = max(1, 2.5); q = abs(a - 6.5)", space="A")]),
+    dict(id="KF-C01-minmax-double-evaluation", property="C01", status="fixed", commit="6728fce",
+         what="abs()/min()/max() were emitted as the Arduino macros, which evaluate their arguments twice: max(noisy(a), 3) called the helper (and its serial output) two times",
+         cases=[prog("C01", P + "def noisy(v):\n    mon.write(v)\n    return v + 1\n" + AB + "mon.write(max(noisy(a), 3))\nmon.write(min(noisy(b), noisy(a)))\nmon.write(abs(noisy(a)))\n", RUN_AB, "max(noisy(a), 3) / min(noisy(b), noisy(a)) / abs(noisy(a))", space="F")]),
+    dict(id="KF-C02-declared-type", property="C02", status="fixed", commit="2d66b75",
+         what="a re-assignment re-typed a declared variable for the analysis (v = 3; v = a > 2; v = 7; w = v declared 'bool w'), values derived later were truncated",
+         cases=[c02_case([("int_lit", "top"), ("bool_expr", "top"), ("int_expr", "top")], "x = 3; x = a > 2; x = a + 1; d = x")]),
+    dict(id="KF-C03-underscore-constants", property="C03", status="fixed", commit="56deef7",
+         what="names starting with '_' were never forgotten as transpile-time constants: _w = [1, 0, 1]; if a > 3: _w.remove(1); led.flash_pattern(_w, 5) played the stale pattern", cases=[]),
+    dict(id="KF-C07-elif-paren", property="C07", status="fixed", commit="c8fce7d",
+         what="'elif(cond):' was rejected while 'elif (cond):' and 'if(cond):' were accepted (optional spacing changed the outcome)", cases=[]),
+    dict(id="KF-C09-list-copy-divergence", property="C09", status="open", commit=None,
+         what="consequence of KF-C01-list-value-semantics: after 'K = L' the firmware's K is a copy, so 'K.append(1)' does not grow L; a later L.remove(L[0]) per pass empties L on the device and reads L[0] of an empty list while CPython's L keeps its length",
+         cases=[prog("C09", P + "def mk(n):\n    return [n, n + 1]\n" + 'a = analog_read("A0")\nx = a\ns = "s"\nL = [1, 2, 3]\nwhile True:\n    K = L\n    K.append(1)\n    mon.write(len(K))\n    L.remove(L[0])\n    mon.write(x)\n    mon.write(len(L))\n    mon.write(L[0])\n    mon.write(L[-1])\n',
+                     [{"passes": 4, "ar": {"A0": [2]}}], "K = L; K.append(1); L.remove(L[0]) in the main loop, 4 passes", placement="shared")]),
     dict(id="KF-C01-c-operator-semantics", property="C01", status="open", commit=None,
          what="'//' and '%' with a negative operand use C truncation, '**' is emitted verbatim (does not compile), and 'and'/'or' yield 0/1 instead of the operand value",
          cases=[prog("C01", P + AB + "mon.write(a // 2)\nmon.write(a % 3)\n", [{"passes": 0, "ar": {"A0": [3], "A1": [12]}}], "a = -7: a // 2 and a % 3"),
@@ -123,6 +137,18 @@ FINDINGS = [
     dict(id="KF-C06-named-exception", property="C06", status="open", commit=None,
          what="'except Exception:' is emitted as 'catch (Exception &)' although no such type exists in the sketch (does not compile; the project's own test pins this text)",
          cases=[prog("C06", c06.PRO + "try:\n    tb = a + 1\nexcept Exception:\n    tb = 0\nmon.write(tb)\n", [{"passes": 0, "ar": {"A0": [4]}}], "try/except with a named exception", space="F", feats=["try_named"])]),
+    dict(id="KF-C06-loop-variable-after-loop", property="C06", status="open", commit=None,
+         what="the loop variable of 'for i in range(n)' is local to the C++ for statement: reading it after the loop (legal Python, i keeps its last value) is accepted but does not compile ('i' undeclared)",
+         cases=[prog("C06", c06.PRO + "for lv in range(3):\n    mon.write(lv)\nmon.write(lv)\n", [{"passes": 0, "ar": {"A0": [4]}}], "for lv in range(3): ...; mon.write(lv) after the loop", space="F", feats=["loopvar_after"])]),
+    dict(id="KF-C01-range-limit-reevaluated", property="C01", status="fixed", commit="a7aef4e",
+         what="the limit of 'for i in range(n)' was re-evaluated on every iteration (body changing n ended the loop early; range(helper()) called the helper once per iteration)",
+         cases=[prog("C01", P + "def noisy(v):\n    mon.write(v)\n    return v + 1\n" + AB + "n = 4\nfor i in range(noisy(1)):\n    mon.write(i)\nn = b\nfor i in range(n):\n    n = n - 1\n    mon.write(i)\n", RUN_AB, "range(noisy(1)); range(n) with n changed in the body", space="K")]),
+    dict(id="KF-C01-loop-variable-rebound", property="C01", status="fixed", commit="2f27444",
+         what="re-binding the loop variable inside a for loop changed the iteration ('for i in range(4): i += 2' ran twice)",
+         cases=[prog("C01", P + AB + "for i in range(4):\n    mon.write(i)\n    i += 2\n    mon.write(i)\n", RUN_AB, "for i in range(4): i += 2", space="K")]),
+    dict(id="KF-C03-comment-hides-assignments", property="C03", status="fixed", commit="6050996",
+         what="a comment-only line at a lower column inside a branch / loop body made the constant tracker treat the block as binding nothing (stale folded len()/values)",
+         cases=[prog("C03", P + 'a = analog_read("A0")\nw = [1, 2, 3]\nv = 200\nfor i in range(2):\n# note\n    w.append(5)\n    v = v + 1\nmon.write(len(w))\nmon.write(v)\n', [{"passes": 0, "ar": {"A0": [5]}}], "column-0 comment inside a for body that appends to a constant list", space="K")]),
     dict(id="KF-C05-rebind", property="C05", status="open", commit=None,
          what="a Servo or Button name declared before the main loop and re-bound to another pin at the top of the loop body keeps driving/sampling the first pin (CPython uses the new object)",
          cases=[c05_case(("servo",), ("both",), ("loop",), True, 2), c05_case(("button",), ("both",), ("loop",), True, 2)]),
